@@ -55,7 +55,7 @@ def gen_case(rng, params, idx):
             for k in rng.sample(["k1", "k2"], rng.choice([1, 2])):
                 kws.append({"n": k, "t": rng.choice(classes + ["object", "int"]), "req": rng.random() < 0.5})
             kws.sort(key=lambda k: k["n"])
-        kind = rng.choice(["leaf", "leaf", "next", "rec", "nextalt"] + (["fnext"] if not kws and ar == npos else []))
+        kind = rng.choice(["leaf", "leaf", "next", "rec", "nextalt", "recnest"] + (["fnext"] if not kws and ar == npos else []))
         if any(p.get("opt") for p in pos) and kind in ("next", "fnext"):
             kind = "leaf"
         methods.append({"mid": i, "pos": pos, "kw": kws, "prio": rng.choice([0, 0, 1]), "kind": kind})
@@ -95,7 +95,7 @@ def check_case(spec, res):
         if not state["first"]:
             res.count("entries_via_" + via) if via else None
         state["first"] = False
-        state["via"] = {"next": "call_next", "fnext": "call_next", "nextalt": "call_next", "rec": "recurse"}.get(m["kind"])
+        state["via"] = {"next": "call_next", "fnext": "call_next", "nextalt": "call_next", "rec": "recurse", "recnest": "recurse"}.get(m["kind"])
         dep = comp = False
         for p in m["pos"] + m.get("kw", []):
             v = loc[p["n"]]
